@@ -92,3 +92,31 @@ add("rd_next_step", ["C03", "C01", "C11", "C12", "C18"], RD_SRC, "h_reader_next_
 add("rd_lookup", ["C02", "C01", "C11", "C12", "C18"], RD_SRC, "h_reader_lookup", unwind=11, timeout=900, slice=4,
     strength="B: iter/get/get_prefix/get_range with symbolic queries, drained (<= 5 next), symbolic table of <= 3 blocks x <= 3 entries, keys <= 2 bytes",
     functions=RD_FUNCS, assumptions=RD_ASSUME, replay="c02")
+# ---------------------------------------------------------------- block.c against the abstract block contract
+BLK_ASSUME = ["block bytes come from an independent reference encoder inside the harness: <= 4 entries, keys <= 2 bytes (empty key included), 1-byte values, restart at any subset of entries, any legal amount of prefix sharing",
+              "iterator state reached by init; [seek_to_first + <= 4 next | seek(k0) [+ next]] = every reachable state of a block iterator used by the reader"]
+BLK_LAYOUTS = {   # {key length, shared, restart} per entry ; number of entries
+    "r_all":   ("{ {1,0,1}, {2,0,1}, {2,0,1}, {2,0,1} }", 4),     # restart at every entry
+    "r_one":   ("{ {0,0,1}, {1,0,0}, {2,1,0}, {2,1,0} }", 4),     # single restart, empty first key, maximal-ish sharing
+    "r_mid":   ("{ {1,0,1}, {2,1,0}, {2,0,1}, {2,1,0} }", 4),     # restart in the middle
+    "r_nomax": ("{ {2,0,1}, {2,0,0}, {2,1,0}, {2,0,1} }", 4),     # non-maximal sharing (0 where 1 would be possible)
+    "r_three": ("{ {1,0,1}, {1,0,0}, {2,1,1}, {0,0,0} }", 3),     # 3 entries, last restart run of one
+    "r_single":("{ {2,0,1}, {0,0,0}, {0,0,0}, {0,0,0} }", 1),     # single-entry block
+}
+BLK_PREP = {0: "fresh iterator", 1: "after seek_to_first + any number of next (running off the end included)", 2: "after an earlier seek(k0) [+ next]"}
+for v, (lay, en) in BLK_LAYOUTS.items():
+    for prep, ptxt in BLK_PREP.items():
+        add(f"blk_seek_{v}_p{prep}", ["C02", "C03", "C11", "C01"], ["tu/blk_step.c", "$REPO/mtbl/varint.c", "$REPO/mtbl/fixed.c"], "h_blk_seek",
+            unwind=6, unwindset={"block_iter_seek.0": 4, "block_iter_seek.1": 4, "block_iter_seek.2": 6, "parse_next_key.0": 5, "ubuf_reserve.0": 2, "vg_cmp.0": 3},
+            timeout=900, tier="quick" if v in ("r_mid", "r_one") else "thorough",
+            defines=["VG_LAYOUT=" + lay, "VG_EN=%d" % en, "VG_PREP=%d" % prep],
+            strength=f"B: block_iter_seek(k) then next, iterator state: {ptxt}; independently encoded block with layout {lay} ({en} entries; key bytes, values, targets symbolic)",
+            functions=["block_init", "block_iter_init", "block_iter_seek", "block_iter_next", "block_iter_get", "block_iter_valid", "block_iter_seek_to_first",
+                       "parse_next_key", "decode_entry", "compare_restart_point", "get_restart_point", "seek_to_restart_point", "num_restarts"],
+            assumptions=BLK_ASSUME)
+add("blk_restart64", ["C11", "C02", "C03"], ["tu/blk_step.c", "$REPO/mtbl/varint.c", "$REPO/mtbl/fixed.c"], "h_blk_restart64", unwind=9, timeout=900, object_bits=10, slice=1,
+    strength="U", functions=["block_init", "block_iter_init", "get_restart_point", "compare_restart_point", "seek_to_restart_point", "num_restarts", "decode_entry", "bytes_compare"],
+    assumptions=["symbolic block of any size in (4 GiB, 1 TiB] with arbitrary content, 1..3 restart points; restart key <= 2 bytes with a one-byte header (content is arbitrary otherwise)"])
+add("blk_decode_entry", ["C11", "C01"], ["tu/blk_step.c", "$REPO/mtbl/varint.c", "$REPO/mtbl/fixed.c"], "h_decode_entry", unwind=26, timeout=600,
+    strength="U", functions=["decode_entry", "mtbl_varint_decode32"],
+    assumptions=["all 24-byte contents and every available length 0..24; header numbers <= UINT32_MAX (well-formed file)"])
